@@ -150,6 +150,7 @@ structure Legit (n rpb k : Nat) (recOf : Nat → Nat) (t : TState) : Prop where
   done_lt : ∀ c, c ∈ t.done → c < k
   acc_done : ∀ r, r ∈ accepted recOf t.outs → ∃ c, c ∈ t.done ∧ recOf c = r
   done_acc : ∀ c, c ∈ t.done → recOf c ∈ accepted recOf t.outs
+  all_acc : ∀ p, p ∈ t.outs → p.2.isAccepted = true
 
 theorem accepted_cons (recOf : Nat → Nat) (c : Nat) (o : VOut) (outs : List (Nat × VOut)) (h : o.isAccepted = true) :
     accepted recOf ((c, o) :: outs) = recOf c :: accepted recOf outs := by
@@ -186,7 +187,12 @@ theorem legit_step {n rpb k : Nat} {recOf : Nat → Nat} (hlt : ∀ c, c < k →
       rw [h1] at this
       exact hna this
     have ha := validate_accepts hL.inv hL.tot (recOf c) hrn hna hnc
-    refine ⟨?_, ?_, ?_, ?_, ?_, ?_⟩
+    refine ⟨?_, ?_, ?_, ?_, ?_, ?_, ?_⟩
+    rotate_right
+    · intro p hp'
+      rcases List.mem_cons.1 hp' with h | h
+      · subst h; exact ha
+      · exact hL.all_acc p h
     · rw [ghost_step]
       exact inv_stepOp hL.inv (.validate (recOf c)) (fun t m e => by cases e)
     · show (validateRecord t.s (recOf c)).1.total = _
@@ -269,11 +275,24 @@ theorem exactly_one_validator (n rpb tps : Nat) (hp : 0 < rpb) (k : Nat) (recOf 
   have hg : ghostOf recOf {} (init (State.new rpb (.specified n) tps)) = {} := by simp [ghostOf, init, accepted, readyLog]
   have hL0 : Legit n rpb k recOf (init (State.new rpb (.specified n) tps)) :=
     ⟨by rw [hg]; exact inv_new n rpb tps hp _ (Or.inl rfl), rfl, rfl, (by intro c h; cases h),
-     (by intro r h; simp [init, accepted] at h), (by intro c h; cases h)⟩
+     (by intro r h; simp [init, accepted] at h), (by intro c h; cases h), (by intro p h; cases h)⟩
   have hL := legit_run hlt hinj sched _ hL0
   have := hL.done_acc c (scheduled_done k recOf sched _ c hcs hck)
   rw [hcr] at this
   exact this
+
+/-- **legit_calls_never_refused.** Same setting (total `n`, `k` calls for pairwise different records below `n`), EVERY
+schedule: no call is answered with a panic (`already validated`, `called twice`, `exceeds`, `expected batch`) or an error —
+each call that took effect was answered `Ready::No` or `Ready::Yes`. -/
+theorem legit_calls_never_refused (n rpb tps : Nat) (hp : 0 < rpb) (k : Nat) (recOf : Nat → Nat) (sched : List Nat)
+    (hlt : ∀ c, c < k → recOf c < n)
+    (hinj : ∀ c c', c < k → c' < k → recOf c = recOf c' → c = c') :
+    ∀ p, p ∈ (run (atomicStep k recOf) (init (State.new rpb (.specified n) tps)) sched).outs → p.2.isAccepted = true := by
+  have hg : ghostOf recOf {} (init (State.new rpb (.specified n) tps)) = {} := by simp [ghostOf, init, accepted, readyLog]
+  have hL0 : Legit n rpb k recOf (init (State.new rpb (.specified n) tps)) :=
+    ⟨by rw [hg]; exact inv_new n rpb tps hp _ (Or.inl rfl), rfl, rfl, (by intro c h; cases h),
+     (by intro r h; simp [init, accepted] at h), (by intro c h; cases h), (by intro p h; cases h)⟩
+  exact (legit_run hlt hinj sched _ hL0).all_acc
 
 /-- non-vacuity of `exactly_one_validator`: 5 records in batches of 2, five calls for the records 3,0,4,1,2, a schedule
 with repetitions and a foreign id — all hypotheses hold for every batch. -/
